@@ -10,7 +10,39 @@ import (
 // C03: lex-stream engine. EOF is injected at every rune position of each sampled text
 // (enumeration happens inside the lexsim node, see lexsim/lexsim.go).
 
-func init() { oracles["C03"] = func() Oracle { return &lexStream{} } }
+func init() {
+	oracles["C03"] = func() Oracle { return &lexStream{} }
+	nodeGates["C03"] = lexGate
+}
+
+// lexGate: the instrumented lex-stream node must report exactly what the same driver
+// reports over the uninstrumented reader / lexer / parser of the same tree.
+func lexGate(c *Ctx) gateResult {
+	o := &lexStream{}
+	plain := NewPool(c.World, map[string]string{"lexsim": c.RealBins["lexsim"]}, 1)
+	defer plain.Close()
+	var g gateResult
+	for i := 0; i < 30; i++ {
+		cs := o.Make(c, 2_000_000+i)
+		a := c.RunStep(c.Pool.One(), cs, 0, 400_000_000, false)
+		var rep lexReport
+		json.Unmarshal(a.Extra, &rep)
+		if a.Status != "exit" || rep.NFindings > 0 {
+			g.Skipped++ // the instrumented node found a hang or a panic: Explore reports it
+			continue
+		}
+		b := c.RunStep(plain.One(), cs, 0, 400_000_000, false)
+		if b.Status != "exit" {
+			g.Skipped++
+			break // the plain node has no tick budget; do not wait for it again
+		}
+		if string(a.Extra) != string(b.Extra) {
+			infra("fidelity gate (C03): instrumented and plain lexer disagree on text %d:\n sim  %s\n real %s", i, shortStr(a.Extra, 400), shortStr(b.Extra, 400))
+		}
+		g.Compared++
+	}
+	return g
+}
 
 type lexStream struct{ n int }
 
